@@ -65,7 +65,10 @@ class SimSpec(common.Spec):
                 if b.get('events') and kind in ('input', 'counter'):
                     # output events of a source that its destination refuses as unknown (harmless:
                     # the sender's event() call reports the error, the simulation goes on)
-                    skw['on_output'] = [edzed.Event(e['dest'], edzed.EventCond('nosuch', None)
+                    # ... or that forward the new value to another source (a relay: a sequential
+                    # block that no combinational block reads)
+                    skw['on_output'] = [edzed.Event(e['dest'], 'put' if e['etype'] == 'put' else
+                                                    edzed.EventCond('nosuch', None)
                                                     if e['etype'] == 'cond_nosuch' else 'nosuch',
                                                     efilter=edzed.not_from_undef)     # not at start-up
                                         for e in b['events']]
@@ -443,6 +446,14 @@ def gen_acyclic(rng, maxc=12, feedback=True):
                 others = [x for x in srcs if x is not sblk]
                 sblk.setdefault('events', []).append(
                     dict(dest=rng.choice(others)['name'], etype=rng.choice(['nosuch', 'cond_nosuch'])))
+    # a relay: an Input nobody is connected to, forwarding every new value to one of the real sources
+    inputs = [x for x in srcs if x['kind'] == 'input']
+    if inputs and rng.random() < 0.3:
+        t = rng.choice(inputs)
+        relay = dict(name='rly', kind='input', init=t['init'], typ=t['typ'],
+                     events=[dict(dest=t['name'], etype='put')])
+        blocks.append(relay)
+        srcs.append(relay)
     # bursts of external events to the sources
     bursts = []
     for _ in range(rng.randrange(1, 7)):
